@@ -193,18 +193,15 @@ struct Budget {
 fn budget(prop: &str, tier: &str) -> Budget {
     let thorough = tier == "thorough";
     let aux = match prop {
-        "C08" => {
-            if thorough {
-                12
-            } else {
-                8
-            }
-        }
+        "C08" => 12,
         "C06" | "C10" | "C11" | "C19" => 4,
         _ => 0,
     };
     let mut runs = if thorough { 150_000 } else { 4_000 };
-    if prop == "C08" || prop == "C10" {
+    if prop == "C08" {
+        runs = if thorough { 50_000 } else { 3_000 };
+    }
+    if prop == "C10" {
         runs = if thorough { 50_000 } else { 2_000 };
     }
     if prop == "C09" || prop == "C11" {
